@@ -9,6 +9,7 @@ import (
 	"math/rand"
 	"os"
 	"sort"
+	"strconv"
 	"strings"
 	"unicode/utf8"
 
@@ -683,10 +684,20 @@ func genPromSized(r *rand.Rand, c *Case, p int, total, n int) {
 		}
 		slots := min(max(720, 2*maxRows+1), 10000)
 		slots -= slots % 3
+		// steps with a millisecond part (5.05 s, 1.005 s, 2.5 s): the points' times then have millisecond parts, some
+		// below 100 (rendered with leading zeros: .050, .005)
+		stepMs, stepStr := stepS*1000, fmt.Sprint(stepS)
+		if c.Class == "prom.query_range" {
+			stepStr = []string{"5", "5", "5.05", "1.005", "2.5"}[r.Intn(5)]
+			// the step in force is what the API's duration parser makes of the text (float seconds -> nanoseconds,
+			// truncated; the engine then works in whole milliseconds): 1.005 is 1004 ms
+			f, _ := strconv.ParseFloat(stepStr, 64)
+			stepMs = int64(f*1e9) / 1e6
+		}
 		for i := 0; i < n; i++ {
 			ps := mk(i)
 			for _, k := range pickSlots(r, slots+1, min(sizes[i], slots+1)) {
-				ts := (baseS + int64(k)*stepS) * 1000
+				ts := baseS*1000 + int64(k)*stepMs
 				if c.TsShiftNs != 0 {
 					ts--
 				}
@@ -694,8 +705,9 @@ func genPromSized(r *rand.Rand, c *Case, p int, total, n int) {
 			}
 			c.Prom = append(c.Prom, ps)
 		}
-		c.FromNs, c.StepNs, c.FillNs = baseS*1e9, stepS*1e9, 300e9
-		c.Req = rdcat.Req{Method: "GET", Path: "/api/v1/query_range", RawQuery: rdcat.Q("query", `up`, "start", fmt.Sprint(baseS), "end", fmt.Sprint(baseS+int64(slots)*stepS), "step", fmt.Sprint(stepS))}
+		c.FromNs, c.StepNs, c.FillNs = baseS*1e9, stepMs*1e6, 300e9
+		endS := baseS + (int64(slots)*stepMs+999)/1000
+		c.Req = rdcat.Req{Method: "GET", Path: "/api/v1/query_range", RawQuery: rdcat.Q("query", `up`, "start", fmt.Sprint(baseS), "end", fmt.Sprint(endS), "step", stepStr)}
 	case "prom.query.vector", "prom.query.scalar":
 		evalS := baseS + 3600
 		for i := 0; i < n; i++ {
